@@ -97,7 +97,7 @@ theorem stepConn_dich (c : Conn) (hp : AllProp c) :
               | cons sc scs => exact ⟨.next ⟨_, ({ env with tr := t1 } : Env).ev _, scs, false⟩, rfl, rfl⟩
   | handler r h =>
     simp only [stepConn, emC, emE, em_input]
-    have hd := handlerPoll_dich (1000 + env.tr.input.length * 4 + (env.segs.map (·.2.length)).sum * 4 + r.sp.cap * 4)
+    have hd := handlerPoll_dich (1000 + env.tr.input.length * 4 + (env.segs.map (·.2.length)).sum * 4 + r.sp.cap * 4 + scriptCost h)
       r h env hph
     simp only [emE] at hd
     rcases hd with ⟨r1, h1, e1, hres, q1, q2⟩ | ⟨r1, h1, e1, e2, q1, q2, hm, hs, ha⟩
